@@ -308,8 +308,13 @@ def e3_miri_part(prop_arg, cases):
             os.remove(fpath)
         if os.path.exists(cases_file):
             os.remove(cases_file)
+        where = [l.strip() for l in log.splitlines() if l.strip().startswith("-->")][:1]
+        in_scope = bool(where) and ("/repo/" in where[0] or "/def_" in where[0])
+        if ub and "Undefined Behavior" in "\n".join(ub) and not in_scope:
+            # reported inside a third-party crate or the harness (e.g. SIMD loads that the symbolic
+            # alignment check mis-reports): not evidence about truc
+            raise Inconclusive("Miri reported undefined behaviour outside truc and its generated code (%s): %s" % (where[0] if where else "?", ub[0][:300]))
         if ub and "Undefined Behavior" in "\n".join(ub) and case is not None:
-            where = [l.strip() for l in log.splitlines() if l.strip().startswith("-->")][:1]
             return {"part": part, "property": prop_arg, "replay_engine": "e3-miri", "replay_extra": {"gen_seed": seed() ^ 0x3141, "config": "miri"},
                     "evaluations": 1, "nontrivial": 0, "distinct_nontrivial": 0, "rule": rule, "samples": [case], "classes": {}, "counters": {},
                     "failures": [{"signature": "miri:undefined-behavior", "case": case,
